@@ -354,14 +354,22 @@ def scale_info_prelude_names(P):
     return names
 
 
-def prelude_fn(ctx, rid):
+def prelude_fn(ctx, rid, outer=False):
+    """the function holding the prelude table: the match on &str in the fn -> TypePathType, or in a private helper that belongs to it
+    (q.owners). With outer=True the fn -> TypePathType itself is returned"""
     hits = []
     for c, b in ctx.P.all_bodies(GEN):
-        if "body" not in b or not b.get("output", "").endswith("type_path::TypePathType"):
+        if "body" not in b or q.derived(b):
             continue
         ms = [m for m in q.matches_on(b["body"], lambda t: t in ("str", "std::string::String"))]
-        if ms:
+        if not ms:
+            continue
+        if b.get("output", "").endswith("type_path::TypePathType"):
             hits.append((b, ms))
+            continue
+        own = [ctx.P.body(o) for o in q.owners(ctx, b["path"], GEN) if o != b["path"]]
+        if own and all(o is not None and o.get("output", "").endswith("type_path::TypePathType") for o in own) and len(own) == 1:
+            hits.append((own[0] if outer else b, ms))
     fn = q.anchor_fn(ctx, rid, "prelude table (match on &str in fn -> TypePathType)", hits)
     return fn
 
@@ -423,7 +431,7 @@ def prelude_table(ctx, rid, only_panic_discharge=False, strict_root=True):
 
 def generated_path(ctx, rid):
     """K4: >= 2 segments -> root module ident followed by all segments in order; params passed through"""
-    a = prelude_fn(ctx, rid)
+    a = prelude_fn(ctx, rid, outer=True)
     if a is None:
         return
     fn, ms = a
